@@ -332,6 +332,18 @@ class World:
         zipfile.time = _TimeShim(self)
         _uuid.uuid1 = self._uuid1
         _uuid.uuid4 = self._uuid4
+        # the ambient decimal context (precision, rounding mode) is caller-side configuration the library may meet:
+        # most runs keep Python's default, the others get a seeded unusual one
+        import decimal as _decimal
+
+        self._decimal_saved = _decimal.getcontext().copy()
+        rdec = substream(self.seed, "decimal-context")
+        if rdec.random() < 0.35:
+            ctx = _decimal.getcontext()
+            ctx.prec = rdec.choice([3, 6, 9, 15, 17, 50])
+            ctx.rounding = rdec.choice([_decimal.ROUND_HALF_EVEN, _decimal.ROUND_UP, _decimal.ROUND_DOWN, _decimal.ROUND_HALF_UP, _decimal.ROUND_FLOOR])
+            self.stats["decimal_context_unusual"] = 1
+            self.stats[f"decimal_prec_{ctx.prec}"] = 1
         # temporary-file names (tempfile.mkdtemp / mkstemp) come from a seeded sequence too: the library does not
         # use them today, a changed one might, and a name decides where an entry sorts in a directory listing
         import random as _random
@@ -369,6 +381,10 @@ class World:
         zipfile.time = _REAL_ZIP_TIME
         _uuid.uuid1 = _REAL_UUID1
         _uuid.uuid4 = _REAL_UUID4
+        if hasattr(self, "_decimal_saved"):
+            import decimal as _decimal
+
+            _decimal.setcontext(self._decimal_saved)
         if hasattr(self, "_tempfile_saved"):
             import tempfile as _tempfile
 
